@@ -16,12 +16,15 @@ struct Case {
 };
 
 static void decode_case(Tape &t, gp::GenCfg cfg, bool canonical, Case &c) {
+  // high-level choices first; the long layout choice stream is derived from a seed (see tape.hpp)
+  c.nfiles = 1 + (int)t.weighted({5, 3, 2, 1});
+  std::vector<uint8_t> lbytes = derive_bytes(t.u32(), 4096);
+  Tape lt(lbytes);
   gp::Gen g(t, cfg);
   c.prog = g.generate();
   gp::normalise(c.prog);
   c.gen_classes = g.classes;
-  c.nfiles = 1 + (int)t.weighted({5, 3, 2, 1});
-  c.layout = canonical ? gp::layout_canonical(c.prog, t, c.nfiles) : gp::layout_free(c.prog, t, c.nfiles);
+  c.layout = canonical ? gp::layout_canonical(c.prog, lt, c.nfiles) : gp::layout_free(c.prog, lt, c.nfiles);
   c.feat = gp::features(c.prog);
 }
 
